@@ -39,11 +39,11 @@ Act ==
      \/ /\ Line.e = "resolve"
         /\ Line.o \in DOMAIN reqs
         /\ ResolveResult(Line.o) = Line.res
-        /\ Resolve(Line.o, Line.val)
+        /\ \E al \in Aliases(Line.o) : Resolve(Line.o, Line.val, al)
         /\ ph' = "take" /\ UNCHANGED <<l, progs>>
      \/ /\ Line.e = "drop"
         /\ Line.o \in DOMAIN reqs
-        /\ DropReq(Line.o)
+        /\ \E al \in Aliases(Line.o) : DropReq(Line.o, al)
         /\ ph' = "take" /\ UNCHANGED <<l, progs>>
      \/ /\ Line.e = "abort"
         /\ AbortCmd(Line.c)
